@@ -34,3 +34,12 @@ def independence_part(ctx, tier):
     # the same histories with histograms that become adaptive only after copies / projections were derived from them
     ctx.replay(g, AdaptiveAdapter(GRIDS[0], spelling=1, stats_cls="M", late=True), VIEW - {"adaptive"}, label="adaptive-independence-late:" + "/".join(x.name for x in GRIDS[0]),
                edge_budget=50000 if tier == "quick" else 300000)
+
+
+def collection_part(ctx, tier):
+    """C18 / C12: members of a HistogramCollection over one adaptive binning (spec: the shared binning makes every member span the
+    union of all ranges; contents stay attached to their intervals)."""
+    _res, g = ctx.model_check("MC_Adaptive_collq", required_actions=["CollCreate", "CollFill", "CollFillN"])
+    view = VIEW - {"stats"}
+    for n, gr in enumerate([[GridEmb(1.0)], [GridEmb(0.5, 0.25)]][:1 if tier == "quick" else 2]):
+        ctx.replay(g, AdaptiveAdapter(gr, spelling=n), view, label="adaptive-collection:" + gr[0].name)
